@@ -5,6 +5,7 @@
 // ops = c ...         operation c of wrapper_drv.cpp on X
 //       100 + c ...   the same on Y
 //       50 fid c ...  X.modify(f) with f = { vs::user_call(fid); Y.<operation c ...>; ++x; }   (c: modify / read / load)
+//       60            X = Y;  (the wrapper itself is the right-hand side)
 //                     result: as Modify fid (the new value of x when fid is odd, otherwise 0)
 // A nested call is an ordinary call of the library made on the client thread inside the functor: it has no
 // K_INVOKE / K_RET of its own.  final(): value / owner / sharers of X, of Y, then the fault and call counters.
@@ -42,6 +43,10 @@ struct Wrap2: IWrap2 {
                 return 0;
             }
             return x.w->modify(body);
+        }
+        if (code == 60) {  // X = Y: whole-object assignment from the other wrapper (instrumented payload only)
+            if constexpr (std::is_same_v<P, WPay>) { *x.w = *y.w; }
+            return 0;
         }
         if (code >= 100) {
             std::vector<long> oy(o);
